@@ -57,6 +57,23 @@ def gen_text(rng, entries):
     return "".join(parts).replace("'", "")
 
 
+def matched_entries(entries, text):
+    """texts of the entries matched by longest match at each position, or None when the text holds an escape or a character no entry covers"""
+    if "[" in text:
+        return None
+    longest = max(len(k) for k in entries)
+    out, p = [], 0
+    while p < len(text):
+        for m in range(min(longest, len(text) - p), 0, -1):
+            if text[p:p + m] in entries:
+                out.append(text[p:p + m])
+                p += m
+                break
+        else:
+            return None
+    return out
+
+
 def check(case):
     rng = random.Random(case["seed"])
     entries = gen_table(rng)
@@ -91,7 +108,10 @@ def check(case):
         from script import Table
         t = Table(path)
         dec = t.to_text(bytes(table_ref.encode(entries, "".join(c for c in text))))
-        plain = [c for c in text]
+        matched = matched_entries(entries, text)
+        if matched is not None and dec != "".join(matched):
+            # every position of the text is covered by a (longest-match) entry and the codes are unique and prefix-free: decoding returns those entries' texts
+            return f"round trip: decode({want.hex()}) = {dec!r}, the matched entries are {matched}", src
         if "[" not in text and all(ch in "".join(entries) for ch in text):
             # re-encode the decoded text: must give the same bytes
             if bytes(table_ref.encode(entries, dec)) != bytes(table_ref.encode(entries, text)):
